@@ -2,7 +2,7 @@
    protocol table (Model/C02Protocols.v) and the I/O glue run_C02.  Definitions only. *)
 From Coq Require Import ZArith List Bool.
 Import ListNotations.
-From SCMO Require Import Lib.Val Lib.PySlice Model.C02Defs Model.C02Comp Model.C02Protocols Gen.GenLayouts Gen.GenComp.
+From SCMO Require Import Lib.Val Lib.PySlice Model.C02Defs Model.C02Comp Model.C02Protocols Model.C02Fq Gen.GenLayouts Gen.GenComp.
 Open Scope Z_scope.
 
 Definition find_protocol (name : sname) : option protocol :=
@@ -216,5 +216,8 @@ Definition run_C02 (mode : Z) (v : Val) : Val :=
     | Some c => run_comp c (dec_table (nthV 1 v)) (dec_table (nthV 2 v)) (dec_cs2 (nthV 3 v)) (map dec_mate (getL (nthV 4 v)))
     | None => VL [VZ 9]
     end
+  | 7 => (* the file-level stream: FastqIterator over [file; ...], file = [line; ...], line = character codes *)
+    VL (map (fun tup => VL (map (fun r => VL [ofZs (f_header r); ofZs (f_seq r); ofZs (f_plus r); ofZs (f_qual r)]) tup))
+            (fq_records (map (fun f => map getZs (getL f)) (getL v))))
   | _ => bad
   end.
